@@ -28,6 +28,8 @@ MEMBERS = [
     ("type_t::create_prefix", r"^type_t type_t::create_prefix\(kind_t kind, position_t pos\) const"),
     ("type_t::create_label", r"^type_t type_t::create_label\(string label, position_t pos\) const"),
     ("type_t::create_array", r"^type_t type_t::create_array\(type_t sub, type_t size, position_t pos\)"),
+    ("type_t::get_range", r"^std::pair<expression_t, expression_t> type_t::get_range\(\) const"),
+    ("type_t::get_expression", r"^expression_t type_t::get_expression\(\) const"),
 ]
 
 ALL_OF = re.compile(r"return std::all_of\(([\w\->\.]+)\.begin\(\), \1\.end\(\),\s*\[[^\]]*\]\(const (\w+)& (\w+)\) \{ return (.*?); \}\);", re.S)
@@ -68,7 +70,7 @@ def type_data_structs():
     d.sub("L4:ctor-init", r"kind\{kind\}, position\{position\}", "kind(kind), position(position)", required=True)
     i = d.text.rindex("};")
     d.text = d.text[:i] + ("    /* G1: ghost summary of this node, used by the contracts of the recursive members */\n"
-                           "    Constants::kind_t g_base; unsigned g_wrap; bool g_mutable, g_constant; type_data* g_sub;\n") + d.text[i:]
+                           "    Constants::kind_t g_base; unsigned g_wrap; bool g_mutable, g_constant; type_data* g_sub; int g_id;\n") + d.text[i:]
     d.rules["G1:ghost-fields-appended"] = 1
     return [c, d]
 
